@@ -120,7 +120,15 @@ class AttackSession:
             return {int(e): int(k) for e, k in aw}          # insertion order = the order sent to the model
         if self.kind == "selective":
             W = self.width(a)
-            return np.array(aw, dtype=int).reshape((W, W))  # numpy's row-major reshape: on the implementation side
+            arr = np.array(aw, dtype=int).reshape((W, W))   # numpy's row-major reshape: on the implementation side
+            lay = (sum(aw) + len(aw)) % 4                   # the same values in another memory layout
+            if lay == 1:
+                return np.asfortranarray(arr)
+            if lay == 2:
+                return np.ascontiguousarray(arr.T).T
+            if lay == 3:
+                return np.ascontiguousarray(arr[::-1, ::-1])[::-1, ::-1]
+            return arr
         return np.array(aw, dtype=int)
 
     def call(self, a, aw, tape, check_space=True, pre=None):
@@ -337,7 +345,14 @@ def _perturb(sess, rng):
     blockers = [ag for ag in alive if ag.blocking]
     ag = rng.choice(blockers) if blockers and rng.random() < 0.7 else rng.choice(alive)
     pos = tuple(int(x) for x in ag.position)
-    if rng.random() < 0.35:
+    u = rng.random()
+    if u < 0.2:
+        # a gate closes or opens: the blocking flag is switched through the public setter, after the actor was built
+        ag.blocking = not ag.blocking
+        sess.stat = w.stat_wire()
+        sess.stat_s = wire.enc(sess.stat)
+        return
+    if u < 0.5:
         ag.health = 0
         w.grid.remove(ag, pos)
         return
@@ -380,6 +395,10 @@ class AttackProp(core.Prop):
         d = {"world": sess.desc, "actor": sess.actor_desc, "pre": pre,
              "call": {"a": cw[3], "action": cw[4]}, "tape": list(tape)}
         tags = [sess.kind, "stacked" if cw[2] else "unstacked"] + list(extra_tags)
+        now = [bool(ag.blocking) for ag in sess.w.agent_list]
+        if now != [bool(a.get("blocking", False)) for a in sess.desc["agents"]]:
+            d["blocking_now"] = now              # switched through the setter after the actor was built
+            tags.append("blocking-switched-after-construction")
         nontrivial = False
         if out[0] != "ok":
             tags.append("err:" + out[1])
@@ -406,6 +425,12 @@ class AttackProp(core.Prop):
         sess = AttackSession(copy.deepcopy(d["world"]), copy.deepcopy(d["actor"]))
         if d.get("pre") is not None:
             MoveProp._load_dyn(sess, d["pre"])
+        if d.get("blocking_now") is not None:
+            for ag, b in zip(sess.w.agent_list, d["blocking_now"]):
+                if bool(ag.blocking) != bool(b):
+                    ag.blocking = bool(b)
+            sess.stat = sess.w.stat_wire()
+            sess.stat_s = wire.enc(sess.stat)
         pre, cw, out, ins = sess.call(d["call"]["a"], d["call"]["action"], d["tape"])
         return self._case(sess, pre, cw, d["tape"], out, ins)
 
